@@ -288,7 +288,14 @@ func runUpd(in In, dir string) (obs Obs) {
 			logMu.Unlock()
 		}
 		p, err := rt.NewPlugin(r.Sock, fmt.Sprintf("%02d", (i*7+3)%100), fmt.Sprintf("p%d", i),
-			rt.Hooks{Create: h, Update: h, Stop: h, Start: h})
+			rt.Hooks{Create: h, Update: h, Stop: h, Start: h, Pod: func(pd *api.PodSandbox) {
+				sIn := rt.Stamp()
+				spin(in.HDwellUs)
+				sOut := rt.Stamp()
+				logMu.Lock()
+				hLog = append(hLog, HObs{R: rid(pd.GetId()), P: i, In: sIn, Out: sOut})
+				logMu.Unlock()
+			}})
 		if err != nil {
 			obs.Status, obs.Note = "error", "plugin: "+err.Error()
 			return
@@ -391,7 +398,14 @@ func runUpd(in In, dir string) (obs Obs) {
 			for k := 0; k < in.R; k++ {
 				id := nextR.Add(1) - 1
 				c := rt.Ctr(fmt.Sprintf("r%d", id), "pod0")
-				switch rnd.Intn(4) {
+				pd := rt.Pod(fmt.Sprintf("r%d", id))
+				switch rnd.Intn(7) {
+				case 4:
+					r.A.RunPodSandbox(ctx, &api.StateChangeEvent{Pod: pd})
+				case 5:
+					r.A.UpdatePodSandbox(ctx, &api.UpdatePodSandboxRequest{Pod: pd, LinuxResources: &api.LinuxResources{}})
+				case 6:
+					r.A.StopPodSandbox(ctx, &api.StateChangeEvent{Pod: pd})
 				case 0:
 					r.A.CreateContainer(ctx, &api.CreateContainerRequest{Pod: pod, Container: c})
 				case 1:
